@@ -120,7 +120,7 @@ TRead == /\ IsEvent("read")
          /\ Keep /\ UNCHANGED <<run, img, aux>>
 
 TOffset == /\ IsEvent("offset")
-           /\ IF ev.t \in 1..Len(tracks) /\ ev.k \in 1..Len(tracks[ev.t].samples) /\ aux[ev.t].sem # <<>>
+           /\ IF ev.t \in 1..Len(tracks) /\ ev.k \in 1..Len(tracks[ev.t].samples) /\ ev.t <= Len(aux) /\ ev.k <= Len(aux[ev.t].sem)
               THEN Check(ev.res = "ok" /\ ev.off = aux[ev.t].sem[ev.k].off,
                          "C01", "sample_offset differs from the decoded tables", <<ev.t, ev.k, ev.res>>)
               ELSE TRUE
